@@ -5,6 +5,7 @@ import Csvq.Model.Scanner
 import Csvq.Model.UnaryPrint
 import Csvq.Model.OpExpr
 import Csvq.Model.Clause
+import Csvq.Model.Query
 import Csvq.Model.LalrTables
 namespace Csvq.Drive
 open Csvq Csvq.Proto Csvq.Esc Csvq.Scan Csvq.UPrint
@@ -87,7 +88,8 @@ def opWords : List (String × Tok Term) := [
   ("ROW", .kw .row), ("ROWS", .kw .rows), ("ONLY", .kw .only), ("WITH", .kw .with), ("TIES", .kw .ties), ("AS", .kw .as),
   (",", .kw .comma), (".", .kw .dot), ("JOIN", .kw .join), ("INNER", .kw .inner), ("OUTER", .kw .outer), ("LEFT", .kw .left),
   ("RIGHT", .kw .right), ("FULL", .kw .full), ("CROSS", .kw .cross), ("NATURAL", .kw .natural), ("ON", .kw .on), ("USING", .kw .using),
-  ("UNION", .kw .union), ("EXCEPT", .kw .except), ("INTERSECT", .kw .intersect), ("ALL", .kw .all)]
+  ("UNION", .kw .union), ("EXCEPT", .kw .except), ("INTERSECT", .kw .intersect), ("ALL", .kw .all),
+  ("RECURSIVE", .kw .recursive), ("FOR", .kw .for_), ("UPDATE", .kw .update)]
 
 open Csvq.OpExpr Csvq.Gen.Precedence in
 def wordToTok (w : String) : Option (Tok Term) :=
@@ -144,6 +146,31 @@ def selx (words : List String) : String :=
     | some (s, []) => String.intercalate " " ((printSelect genTable s).map tokToWord)
     | _ => "ERR"
 
+open Csvq.OpExpr Csvq.Clause Csvq.Query Csvq.Gen.Precedence in
+mutual
+def showTree : SetTree Term → String
+  | .ent _ => "s"
+  | .sub q => "P[" ++ showQuery q ++ "]"
+  | .op l k all r => (match k with | .union => "U" | .except => "X" | .intersect => "I") ++ (if all then "a" else "") ++
+      "(" ++ showTree l ++ "," ++ showTree r ++ ")"
+def showQuery : Query Term → String
+  | .mk w b _ _ => (match w with | .nil => "" | .cons .. => "W[" ++ showWiths w ++ "]") ++ showTree b
+def showWiths : Withs Term → String
+  | .nil => ""
+  | .cons _ _ _ q .nil => showQuery q
+  | .cons _ _ _ q (.cons a b c d e) => showQuery q ++ "," ++ showWiths (.cons a b c d e)
+end
+
+open Csvq.OpExpr Csvq.Clause Csvq.Query Csvq.Gen.Precedence in
+/-- `c18.qry`: the printed tokens of the parsed query (set operators, parenthesised operands, WITH, FOR UPDATE), or ERR -/
+def qryx (words : List String) : String :=
+  match words.mapM wordToTok with
+  | none => "bad-op"
+  | some ts =>
+    match parseWhole genTable genLv ts with
+    | some q => showQuery q ++ " | " ++ String.intercalate " " ((printQuery genTable q).map tokToWord)
+    | none => "ERR"
+
 /-! `c18.lalr`: the goyacc driver model over the token codes the real scanner produced -/
 
 /-- the loop of `Lalr.run` again, also folding the reductions (production, state) into a hash and counting them;
@@ -191,6 +218,7 @@ def c18 (cmd : String) (args : List String) : String :=
     | _, _ => bad
   | "opx", l => opx l
   | "sel", l => selx l
+  | "qry", l => qryx l
   | "lalr", l => lalrOp l
   | "unary", l =>
     match parseUExpr l with
